@@ -632,7 +632,8 @@ class SimulationAlgorithm(BaseSimulationAlgorithm):
             3: 0.001,  # 0.001 years ~ 0.365 days (~1 day) - User will never want precision above 1 day.
         }
 
-        rounding_precision = None
+        # spacings finer than the finest option are rounded at the finest precision
+        rounding_precision = max(rounding_options)
         for precision, val in sorted(rounding_options.items()):
             if val <= min_spacing_between_visits:
                 rounding_precision = precision
